@@ -180,6 +180,12 @@ EvBlock ==
   /\ l2' = Append(l2, [num |-> Trace[l].num, leaves |-> Trace[l].leaves, claims |-> Trace[l].claims])
   /\ l' = l + 1 /\ UNCHANGED <<t, l1, ledger, rows, rowsBefore, lastTick, viol>>
 
+(* an L2 reorg of blocks that no settled or undecided certificate covers (environment) *)
+EvL2Reorg ==
+  /\ Ev("l2reorg")
+  /\ l2' = SelectSeq(l2, LAMBDA b : b.num < Trace[l].from)
+  /\ l' = l + 1 /\ UNCHANGED <<t, l1, ledger, rows, rowsBefore, lastTick, viol>>
+
 EvSubmit ==
   /\ Ev("submit")
   /\ LET e == Trace[l] IN
@@ -252,7 +258,7 @@ Finish ==
   /\ PrintT(<<"DONE", ToJson([lines |-> Len(Trace), traces |-> t])>>)
   /\ l' = l + 1 /\ UNCHANGED <<t, l1, l2, ledger, rows, rowsBefore, lastTick, viol>>
 
-Next == EvReset \/ EvBlock \/ EvSubmit \/ EvAgMove \/ EvTick \/ EvRestart \/ EvDb \/ EvOther \/ Finish
+Next == EvReset \/ EvBlock \/ EvL2Reorg \/ EvSubmit \/ EvAgMove \/ EvTick \/ EvRestart \/ EvDb \/ EvOther \/ Finish
 Spec == Init /\ [][Next]_vars
 
 HW == TLCSet(1, IF l > TLCGet(1) THEN l ELSE TLCGet(1))
